@@ -51,6 +51,7 @@ type c01Deployment struct {
 	BackendCfg      *tls.Config
 	PublicCfg       *tls.Config // public-name server (holds the real keys)
 	RouterSortsALPN bool        // the front server edits the slice ALPNProtos() returned
+	KeySplit        int         // >0: Keys[:KeySplit] and Keys[KeySplit:] go into two WithKeys options
 	PublicName      string
 	mu              sync.Mutex
 	FrontConns      []*ech.Conn
@@ -68,7 +69,12 @@ func (d *c01Deployment) serve(front net.Conn, done chan<- struct{}) {
 	defer close(done)
 	ctx, cancel := context.WithTimeout(context.Background(), 20*time.Second)
 	defer cancel()
-	c, err := ech.NewConn(ctx, front, ech.WithKeys(d.Keys))
+	opts := []ech.Option{ech.WithKeys(d.Keys)}
+	if d.KeySplit > 0 && d.KeySplit < len(d.Keys) {
+		// current keys and the previous rotation's keys arrive as separate options (WithKeys appends)
+		opts = []ech.Option{ech.WithKeys(d.Keys[:d.KeySplit:d.KeySplit]), ech.WithKeys(d.Keys[d.KeySplit:])}
+	}
+	c, err := ech.NewConn(ctx, front, opts...)
 	d.mu.Lock()
 	d.FrontConns = append(d.FrontConns, c)
 	d.FrontErrs = append(d.FrontErrs, err)
@@ -342,6 +348,10 @@ func TestC01(t *testing.T) {
 		}
 		d := &c01Deployment{Keys: echKeys(keys...), BackendCfg: backend, PublicName: publicName}
 		d.RouterSortsALPN = rapid.Bool().Draw(t, "router_edits_alpn_slice")
+		if len(d.Keys) >= 2 && rapid.Bool().Draw(t, "keys_in_two_options") {
+			d.KeySplit = rapid.IntRange(1, len(d.Keys)-1).Draw(t, "key_split")
+			cl = append(cl, "keys_in_two_options")
+		}
 		if rapid.IntRange(0, 2).Draw(t, "interloper") == 0 {
 			d.Interloper = hello.Record(22, 0x0303, hello.GenPlain(t, "interloper_hello", hello.PlainOpts{}).Message())
 			cl = append(cl, "other_connection_accepted_in_between")
